@@ -37,6 +37,9 @@ CallClause(t, c) ==
     ELSE IF c.exc # "" THEN "sampling-failed:" \o c.exc
     ELSE IF \E i \in DOMAIN c.rows : ~RowOK(t, c, c.rows[i]) THEN
               (IF t.scenario.boundary THEN "boundary-sample-off-boundary" ELSE "sample-outside-domain")
+    \* a call for n points per parameter row returns n points for every row of the batch (also with a filter)
+    ELSE IF c.kind \in {"dom_random", "dom_grid", "s_random", "s_grid", "s_gauss", "s_lhs", "s_adaptive", "s_adaptive_r"} /\ c.n > 0
+            /\ c.count # c.n * (IF c.k = 0 THEN 1 ELSE c.k) THEN "wrong-number-of-points"
     ELSE "ok"
 \* a call is judged only if the expression has positive measure at every parameter row of the call
 Judgeable(t, c) == IF c.prm = <<>> THEN Positive(E(t), <<>>, c.filter) ELSE \A i \in DOMAIN c.prm : Positive(E(t), c.prm[i], c.filter)
